@@ -16,7 +16,7 @@ import (
 func init() {
 	register("C20",
 		"that a k-th-weekday festival is reported exactly once per year (that needs the weekday arithmetic of C04) and the contents of the festival name tables.",
-		r20_1, r20_2, r20_3, r04_3)
+		r20_1, r20_2, r20_3, r20_4, r04_3, r17_5)
 }
 
 func r20_1(c *Ctx, r *Report) {
@@ -335,4 +335,89 @@ func r20_2(c *Ctx, r *Report) {
 
 func r20_3(c *Ctx, r *Report) {
 	festivalTables(c, r, "R20.3")
+}
+
+func r20_4(c *Ctx, r *Report) {
+	const rule = "R20.4"
+	r.rule(rule, "Every festival of the day is listed. Solar.GetFestivals is followed (evaluator, tables folded, appended names collected in order) for every month 1..12, day 1..31, weekday 0..6 and month length 28..31: the list is the fixed-date festival of month-day if there is one, then the festival of the (ceil(day/7))-th such weekday of the month if there is one, then — when day + 7 exceeds the month length — the festival of the last such weekday if there is one: three independent lookups, none of which suppresses another (a fixed-date festival and a weekday festival can fall on one day).")
+	fn := c.Fn(r, rule, "calendar.(*Solar).GetFestivals")
+	fest := c.tabMap(r, rule, "SolarUtil", "FESTIVAL")
+	wfest := c.tabMap(r, rule, "SolarUtil", "WEEK_FESTIVAL")
+	if fn == nil || len(fn.Params) != 1 || fest == nil || wfest == nil {
+		return
+	}
+	var bad []string
+	n := 0
+	for m := int64(1); m <= 12; m++ {
+		for d := int64(1); d <= 31; d++ {
+			for w := int64(0); w < 7; w++ {
+				for _, ml := range []int64{28, 29, 30, 31} {
+					if d > ml || len(bad) >= 4 {
+						continue
+					}
+					leaf := func(fr *evalFrame, v ssa.Value) (interface{}, bool) {
+						if rc, f, ok := getterField(c, v); ok {
+							if ofr, o := fr.origin(rc); ofr.parent == nil && o == ssa.Value(fn.Params[0]) {
+								switch f {
+								case "Solar.year":
+									return int64(2023), true
+								case "Solar.month":
+									return m, true
+								case "Solar.day":
+									return d, true
+								}
+							}
+						}
+						if call, ok := v.(*ssa.Call); ok && call.Common().StaticCallee() != nil {
+							switch fname(call.Common().StaticCallee()) {
+							case "calendar.(*Solar).GetWeek":
+								return w, true
+							case "SolarUtil.GetDaysOfMonth":
+								return ml, true
+							}
+							if call.Common().StaticCallee().String() == "container/list.New" {
+								return absPtr{"list", false}, true
+							}
+						}
+						return nil, false
+					}
+					ev := &evaluator{leaf: leaf, inline: inlineLibrary}
+					var pushed []string
+					ev.visit = func(fr *evalFrame, call *ssa.Call) {
+						callee := call.Common().StaticCallee()
+						if callee == nil || !strings.HasPrefix(callee.String(), "(*container/list.List).Push") || len(call.Common().Args) != 2 {
+							return
+						}
+						if o, ok := ev.eval(fr, unwrapIface(call.Common().Args[1]), 0); ok {
+							pushed = append(pushed, fmt.Sprint(o))
+						} else {
+							pushed = append(pushed, "?")
+						}
+					}
+					_, outcome := ev.run(fn, nil, nil, nil, nil)
+					n++
+					var want []string
+					if e, ok := fest.M[fmt.Sprintf("%d-%d", m, d)]; ok {
+						want = append(want, e.S)
+					}
+					if e, ok := wfest.M[fmt.Sprintf("%d-%d-%d", m, (d+6)/7, w)]; ok {
+						want = append(want, e.S)
+					}
+					if d+7 > ml {
+						if e, ok := wfest.M[fmt.Sprintf("%d-0-%d", m, w)]; ok {
+							want = append(want, e.S)
+						}
+					}
+					got := strings.Join(pushed, ",")
+					if outcome != "return" {
+						got = outcome + " " + ev.fail
+					}
+					if got != strings.Join(want, ",") {
+						bad = append(bad, fmt.Sprintf("%d-%d on weekday %d in a month of %d days: [%s], stated [%s]", m, d, w, ml, got, strings.Join(want, ",")))
+					}
+				}
+			}
+		}
+	}
+	r.check(len(bad) == 0 && n > 0, rule, "calendar.(*Solar).GetFestivals lists the fixed-date, the n-th weekday and the last weekday festival", c.fnPos(fn), fmt.Sprintf("%d assignments; deviations: %v", n, headList(bad, 3)))
 }
